@@ -116,6 +116,41 @@ fn limits() -> Vec<SVal> {
     v
 }
 
+/// collections, texts and nestings of many sizes (nothing about the image depends on how large or how deep a value is)
+fn sizes() -> Vec<SVal> {
+    let mut v = vec![];
+    for n in [31usize, 32, 33, 127, 128, 129, 255, 256, 257, 1000, 65_537] {
+        v.push(SVal::Seq((0..n).map(|i| SVal::U32(i as u32)).collect(), n % 2 == 0));
+        v.push(SVal::Bytes((0..n).map(|i| i as u8).collect()));
+        v.push(SVal::Str("é".repeat(n)));
+        if n <= 1000 {
+            v.push(SVal::Tuple((0..n).map(|i| SVal::I16(i as i16)).collect()));
+            v.push(SVal::Map((0..n).map(|i| (SVal::Str(format!("k{i:05}")), SVal::U64(i as u64))).collect(), n % 2 == 1));
+            v.push(SVal::Struct("Wide".into(), (0..n).map(|i| (format!("f{i:05}"), SVal::Bool(i % 2 == 0))).collect()));
+            v.push(SVal::TupleVariant("E".into(), 0, "V".into(), (0..n).map(|i| SVal::I64(-(i as i64))).collect()));
+        }
+    }
+    for depth in [8usize, 31, 32, 33, 64, 100, 127, 128, 129, 200, 300] {
+        for wrapper in 0..8usize {
+            let mut x = SVal::I8(7);
+            for level in 0..depth {
+                let w = if wrapper == 7 { level % 7 } else { wrapper };
+                x = match w {
+                    0 => SVal::Seq(vec![x], true),
+                    1 => SVal::Some(Box::new(x)),
+                    2 => SVal::NewtypeStruct("N".into(), Box::new(x)),
+                    3 => SVal::Map(vec![(SVal::Str("k".into()), x)], true),
+                    4 => SVal::Struct("S".into(), vec![("f".into(), x)]),
+                    5 => SVal::Tuple(vec![SVal::Unit, x]),
+                    _ => SVal::NewtypeVariant("E".into(), 0, "V".into(), Box::new(x)),
+                };
+            }
+            v.push(x);
+        }
+    }
+    v
+}
+
 fn nontrivial(v: &SVal, depth: usize) -> bool {
     fn d(v: &SVal) -> usize {
         match v {
@@ -222,6 +257,26 @@ pub fn run(ctx: &Ctx) {
         "limit",
     );
 
+    let sz = sizes();
+    ctx.enumerate(
+        "sizes-and-depths",
+        sz.len() as u64,
+        true,
+        |i, acc| {
+            let v = &sz[i as usize];
+            acc.cell(&format!("size:{}", sval::kind_name(v)), true);
+            if i % 17 == 0 {
+                acc.sample("size", || {
+                    let t = format!("{v:?}");
+                    format!("{} ... ({} characters of debug text)", t.chars().take(60).collect::<String>(), t.len())
+                });
+            }
+            check(v)
+        },
+        |i| json!({"size_index": i}),
+        "size",
+    );
+
     let n = ctx.tier.pick(1_500_000u64, 15_000_000u64);
     ctx.random(
         "random-values",
@@ -264,6 +319,9 @@ pub fn replay(j: &serde_json::Value) -> Option<Verdict> {
     }
     if let Some(i) = j.get("limit_index").and_then(|x| x.as_u64()) {
         return limits().get(i as usize).map(check);
+    }
+    if let Some(i) = j.get("size_index").and_then(|x| x.as_u64()) {
+        return sizes().get(i as usize).map(check);
     }
     let bytes: Vec<u8> = j.get("sval_bytes")?.as_array()?.iter().filter_map(|b| b.as_u64().map(|x| x as u8)).collect();
     Some(check(&sval::gen_sval(&mut Dec::new(&bytes), 4)))
